@@ -1,0 +1,34 @@
+//go:build verif
+
+package pointindex
+
+import (
+	"github.com/pdok/texel/intgeom"
+	"github.com/pdok/texel/morton"
+)
+
+// Exports for the verification harness in /verif (build tag "verif" only).
+
+func VerifLineIntersects(intLine intgeom.Line, intExtent intgeom.Extent) bool {
+	return lineIntersects(intLine, intExtent)
+}
+
+func VerifContainsPoint(intPt intgeom.Point, intExtent intgeom.Extent) bool {
+	return containsPoint(intPt, intExtent)
+}
+
+func VerifGetQuadrantZs(parentZ morton.Z) [4]morton.Z {
+	return getQuadrantZs(parentZ)
+}
+
+func (ix *PointIndex) VerifGeometry() (extent intgeom.Extent, deepestLevel Level, deepestSize uint, deepestRes intgeom.M) {
+	return ix.intExtent, ix.deepestLevel, ix.deepestSize, ix.deepestRes
+}
+
+func (ix *PointIndex) VerifQuadrantCentroids(level Level) map[morton.Z]intgeom.Point {
+	out := make(map[morton.Z]intgeom.Point, len(ix.quadrants[level]))
+	for z, q := range ix.quadrants[level] {
+		out[z] = q.intCentroid
+	}
+	return out
+}
